@@ -450,10 +450,16 @@ func c12(c *Ctx) {
 	okStore, okVal := false, false
 	for _, f := range withAnon(a.store) {
 		eachInstr(f, func(i ssa.Instruction) {
-			if cl, ok := i.(*ssa.Call); ok && facts.CalleeName(&cl.Call) == "(*badger.Txn).Set" {
-				// (either operand may have been hoisted into a local captured by the closure)
-				okStore = facts.Term(resolveSpill(cl.Call.Args[1])) == "(*N/vaa.VAAID).Bytes(N/db.VaaIDFromVAA(v))"
-				okVal = facts.Term(resolveSpill(cl.Call.Args[2])) == "(*N/vaa.VAA).Marshal(v)#0"
+			if cl, ok := i.(*ssa.Call); ok && (facts.CalleeName(&cl.Call) == "(*badger.Txn).Set" || plainSetEntry(cl)) {
+				k, val := cl.Call.Args[1], cl.Call.Args[len(cl.Call.Args)-1]
+				if plainSetEntry(cl) {
+					ne := cl.Call.Args[1].(*ssa.Call)
+					k, val = ne.Call.Args[0], ne.Call.Args[1]
+				}
+				// (either operand may have been hoisted into a local captured by the closure, or
+				// into a field of a small entry struct whose method is the transaction body)
+				okStore = facts.Term(resolveSpill(k)) == "(*N/vaa.VAAID).Bytes(N/db.VaaIDFromVAA(v))"
+				okVal = facts.Term(resolveSpill(val)) == "(*N/vaa.VAA).Marshal(v)#0"
 			}
 		})
 	}
@@ -480,12 +486,12 @@ func c12(c *Ctx) {
 		for _, r := range acceptingReturns(f) {
 			wrote := false
 			for _, at := range facts.Atoms(acceptFacts(r)) {
-				if strings.HasPrefix(at, "(*badger.Txn).Set(") && strings.HasSuffix(at, " == nil") {
+				if (strings.HasPrefix(at, "(*badger.Txn).Set(") || strings.HasPrefix(at, "(*badger.Txn).SetEntry(")) && strings.HasSuffix(at, " == nil") {
 					wrote = true
 				}
 			}
 			// `return txn.Set(k, v)` returns the write's own result
-			if cl, ok := r.Results[len(r.Results)-1].(*ssa.Call); ok && facts.CalleeName(&cl.Call) == "(*badger.Txn).Set" {
+			if cl, ok := r.Results[len(r.Results)-1].(*ssa.Call); ok && (facts.CalleeName(&cl.Call) == "(*badger.Txn).Set" || plainSetEntry(cl)) {
 				wrote = true
 			}
 			R.Check("C12.same-key", R.Key("C12.same-key", shortFn(f), "success-implies-written"), c.rel(p.Pos(instrPos(r))), "the store transaction reports success only after txn.Set of this VAA succeeded", wrote, "a nil return is reachable without the write: the bytes read back later are not the bytes stored")
@@ -498,7 +504,7 @@ func c12(c *Ctx) {
 			if cl, ok := i.(*ssa.Call); ok {
 				switch facts.CalleeName(&cl.Call) {
 				case "(*badger.Txn).Get":
-					kt := facts.Term(resolveSpill(cl.Call.Args[1]))
+					kt := facts.Term(resolveSpill(resolveSpill(cl.Call.Args[1])))
 					okGet = strings.HasPrefix(kt, "(*N/vaa.VAAID).Bytes(") && strings.Contains(kt, "id")
 				case "(*badger.Item).ValueCopy":
 					okCopy = isNilConst(cl.Call.Args[1])
